@@ -176,7 +176,7 @@ def make_case(ctx, g):
     flags = set()
     if g.chance(0.08):
         adoption_scenario(ctx, g, w, fails, flags)
-    b = DocBuilder(g, w, repeat_id=0.35, malformed=0.02)
+    b = DocBuilder(g, w, repeat_id=0.35, malformed=0.02, foreign_formal=0.08)
     docs = []
     roots_extra = []
     for _ in range(g.rng.randint(1, 2)):
